@@ -120,12 +120,23 @@ make_case(const Plan& p)
   {
     TimeFrameDefinitions tf;
     tf.set_num_time_frames(1);
-    tf.set_time_frame(1, (double)p.c("t0", 10), (double)p.c("t0", 10) + (double)p.c("dt", 30));
+    // start times late in a long study, with fractions of a second, in a third of the cases
+    const double t_extra = p.c("late_frame", 0) ? 86400. * (double)(1 + p.c("t0", 10) % 3) + 0.25 : 0.;
+    tf.set_time_frame(1, (double)p.c("t0", 10) + t_extra, (double)p.c("t0", 10) + t_extra + (double)p.c("dt", 30) + (t_extra > 0 ? 0.125 : 0.));
     c.exam->set_time_frame_definitions(tf);
     c.exam->set_low_energy_thres(425.f);
     c.exam->set_high_energy_thres(650.f);
     c.exam->patient_position = PatientPosition((PatientPosition::PositionValue)(p.c("patpos", 0) % 8));
     c.exam->set_radionuclide(Radionuclide("^18^Fluorine", 511.f, 0.9686f, 6584.04f, ImagingModality(ImagingModality::PT)));
+    if (p.c("modality_nm", 0))
+      {
+        // a SPECT study: modality NM is stored exam information, and the header then takes its "Tomographic" branch
+        c.exam->imaging_modality = ImagingModality::NM;
+        c.exam->set_radionuclide(Radionuclide("^99m^Technetium", 140.511f, 0.885f, 21624.12f, ImagingModality(ImagingModality::NM)));
+        c.exam->set_low_energy_thres(126.f);
+        c.exam->set_high_energy_thres(154.f);
+        sim::probe("modality_nm");
+      }
     if (p.c("calib", 0))
       c.exam->set_calibration_factor(1.5f * (float)p.c("calib", 1));
   }
@@ -814,6 +825,8 @@ gen(uint64_t seed, const std::string& tier, long idx)
   for (int j = 0; j < 4; ++j)
     o.a.push_back((long)r.below(100000));
   p.ops.push_back(o);
+  p.cfg["modality_nm"] = r.chance(0.25);
+  p.cfg["late_frame"] = r.chance(0.33);
   return p;
 }
 
